@@ -347,6 +347,22 @@ func checkRetryResult(c *Ctx, r *R, f *ssa.Function, name string, commitPats ...
 	// the commit happens under the shared shutdown lock (taken around the
 	// call itself, or around the helper that makes it)
 	held := lockHeldAt(commit, "shutdownLock") || lockHeldAt(outer, "shutdownLock")
+	if h := commit.Common().StaticCallee(); !held && h != nil && h.Blocks != nil && higherOrderWrapper(commit, commitPats...) {
+		// the helper that is handed the commit as a function value takes
+		// the lock around its call of it
+		n, all := 0, true
+		instrs(h, func(i ssa.Instruction) {
+			if cl, ok := i.(*ssa.Call); ok {
+				if _, isP := cl.Common().Value.(*ssa.Parameter); isP && !cl.Common().IsInvoke() {
+					n++
+					if !lockHeldAt(cl, "shutdownLock") {
+						all = false
+					}
+				}
+			}
+		})
+		held = n > 0 && all
+	}
 	r.Check(held, name+":commit-under-shutdownLock", commit.Pos(), "commit is performed with shutdownLock read-held", "commit is not performed under shutdownLock: Shutdown can close raft in the middle of it")
 }
 
@@ -545,8 +561,29 @@ func r015(c *Ctx, r *R) {
 	if f == nil {
 		return
 	}
-	puts := findCalls(f, true, "go-datastore.Write).Put")
-	dels := findCalls(f, true, "go-datastore.Write).Delete")
+	// the calls may live in f, in a closure of f, or in a single-caller
+	// helper f hands a piece of the work to (a piece of f)
+	collect := func(pat string) []deepCall {
+		out := findCallsDeep(f, pat)
+		seen := map[ssa.CallInstruction]bool{}
+		for _, d := range out {
+			seen[d.Inner] = true
+		}
+		for _, ci := range findCalls(f, true, pat) {
+			if !seen[ci] {
+				out = append(out, deepCall{Outer: ci, Inner: ci})
+			}
+		}
+		return out
+	}
+	before := func(a, b deepCall) bool {
+		if a.Inner.Parent() == b.Inner.Parent() {
+			return precedes(a.Inner, b.Inner)
+		}
+		return a.Outer != b.Outer && a.Outer.Parent() == b.Outer.Parent() && precedes(a.Outer, b.Outer)
+	}
+	puts := collect("go-datastore.Write).Put")
+	dels := collect("go-datastore.Write).Delete")
 	if len(puts) == 0 {
 		r.Und("put", f.Pos(), "Unmarshal writes nothing")
 		return
@@ -555,19 +592,19 @@ func r015(c *Ctx, r *R) {
 		key := fmt.Sprintf("delete-before-put#%d", i+1)
 		ok := false
 		for _, d := range dels {
-			if d.Parent() == p.Parent() && precedes(d, p) {
+			if before(d, p) {
 				ok = true
 			}
 		}
-		r.Check(ok, key, p.Pos(), "entries are written only after the namespace's existing keys were deleted",
+		r.Check(ok, key, p.Inner.Pos(), "entries are written only after the namespace's existing keys were deleted",
 			"Unmarshal writes the snapshot's entries without deleting what the state holds: restoring onto a non-empty replica keeps pins the snapshot no longer contains")
 	}
 	// what is deleted is everything under the namespace: a Query on the
 	// read side with the namespace prefix precedes the deletes
 	okQ := false
-	for _, q := range findCalls(f, true, "go-datastore.Read).Query") {
+	for _, q := range collect("go-datastore.Read).Query") {
 		for _, d := range dels {
-			if q.Parent() == d.Parent() && precedes(q, d) {
+			if before(q, d) {
 				okQ = true
 			}
 		}
